@@ -373,14 +373,11 @@ void AbstractDiscreteDistribution::discretizeEqualProportions()
       bounds_[i - 1] = intMinMax_->getLowerBound() + static_cast<double>(i) * ec;
     }
 
-    values[0] = (intMinMax_->getLowerBound() + bounds_[0]) / 2;
-
-    for (i = 1; i < numberOfCategories_ - 1; i++)
+    // mid-point of each interval (there are only numberOfCategories_ - 1 interior bounds, none for a single class)
+    for (i = 0; i < numberOfCategories_; i++)
     {
-      values[i] = (bounds_[i - 1] + bounds_[i]) / 2;
+      values[i] = intMinMax_->getLowerBound() + (static_cast<double>(i) + 0.5) * ec;
     }
-
-    values[numberOfCategories_ - 1] = (intMinMax_->getUpperBound() + bounds_[numberOfCategories_ - 1]) / 2;
   }
 
   // adjustments near the boundaries of the domain, according to the precision chosen
